@@ -313,7 +313,8 @@ def run_real(exe, lines, shards=4, max_aborts=12):
     """Few processes (process creation is the dominant cost on a loaded machine).  When a shard dies (a
     panic inside an extern "C" frame aborts the process; the driver's watchdog aborts a scenario that does
     not terminate) the lines are re-run sequentially, restarting after each abort; after `max_aborts`
-    aborts the remaining lines are reported as `ABORT:skipped` (only a broken runtime gets there)."""
+    scenarios that did not terminate the remaining lines are reported as `ABORT:skipped` (only a broken
+    runtime gets there)."""
     if not lines:
         return []
     try:
@@ -334,7 +335,9 @@ def run_real(exe, lines, shards=4, max_aborts=12):
         i += len(got)
         if i < len(lines):
             last = [l for l in se.strip().split("\n") if l.strip()]
-            out.append("ABORT:" + (last[-1].strip().replace(" ", "_") if last else "rc=%s" % rc))
+            msg = last[-1].strip().replace(" ", "_") if last else "rc=%s" % rc
+            out.append("ABORT:" + msg)
             i += 1
-            aborts += 1
+            if "watchdog" in msg or rc == 124:
+                aborts += 1      # only scenarios that did not terminate count (an abort by panic is quick)
     return out
